@@ -224,6 +224,13 @@ func (l *Lexer) readDigit(tok *token.Token) {
 
 func (l *Lexer) readFloat(hasReadExponentAlready bool, tok *token.Token) {
 
+	if hasReadExponentAlready {
+		// the exponent indicator directly followed the integer part (1e+3, 1E-3): its optional sign comes next
+		if sign := l.peekRune(false); sign == runes.SUB || sign == runes.ADD {
+			l.readRune()
+		}
+	}
+
 	var r byte
 	for {
 		r = l.peekRune(false)
